@@ -42,3 +42,31 @@ fn c02_k4_many_layers() {
     kani::cover!(!l.trans_resolution_behavior_v2, "v1");
     core::mem::forget(l);
 }
+
+static VK_C02_WIDE_LAYERS: [[[Action<'static, u8>; 767]; 2]; 1] = [[[Action::Trans; 767]; 2]; 1];
+static VK_C02_WIDE_SRC: [Action<'static, u8>; 767] = [Action::KeyCode(KeyCode::A); 767];
+
+// @harness name=c02_k1_coord_lookup prop=C02 tier=quick timeout=1800
+// @encodes Layout::resolve_coord at kanata's real width
+// @inst Layout<767, 2, u8> (kanata's KEYS_IN_ROW x 2 rows)
+// @bounds every coordinate (row 0..=1, column 0..=900): real keys 0..766 and the chords-v2 virtual coordinates 851..=900 that ChordsV2::next_coord hands to do_action; all-transparent layer 0; search stack [0]
+// @assumes none
+// @spec resolving a transparent action never panics, for any coordinate the run time can produce: real keys fall through to defsrc, virtual-key and chord coordinates to no-op
+#[kani::proof]
+#[kani::unwind(3)]
+fn c02_k1_coord_lookup() {
+    let l: Layout<'static, 767, 2, u8> = vk_layout_literal(&VK_C02_WIDE_SRC, &VK_C02_WIDE_LAYERS);
+    let x: u8 = kani::any();
+    let y: u16 = kani::any();
+    kani::assume(x < 2 && y <= 900);
+    let mut stack: LayerStack = Vec::new();
+    let _ = stack.push(0);
+    let a = l.resolve_coord((x, y), &mut stack.into_iter());
+    if x == 0 && y < 767 {
+        assert!(matches!(a, Action::KeyCode(KeyCode::A)), "a real key falls through to its defsrc key");
+    } else {
+        assert!(matches!(a, Action::NoOp), "virtual keys and chord coordinates fall through to no-op");
+    }
+    kani::cover!(y >= 851, "chords-v2 virtual coordinate");
+    core::mem::forget(l);
+}
